@@ -38,8 +38,16 @@ func (m *ModbusTCPAssembler) handleNextPacket(ctx context.Context) (response []b
 	}
 	if n == 0 {
 		// received data can not be Modbus TCP packet. As it is unknown where the next packet would start we discard everything.
+		// Reply is addressed with values found at the header positions so client can match it to what it sent.
+		data := m.received.Bytes()
+		errResp := packet.ErrorResponseTCP{
+			TransactionID: binary.BigEndian.Uint16(data[0:2]),
+			UnitID:        data[6],
+			Function:      data[7] &^ 0x80,
+			Code:          err.(*packet.ErrorParseTCP).Packet.Code,
+		}
 		m.received.Reset()
-		return err.(*packet.ErrorParseTCP).Bytes(), true
+		return errResp.Bytes(), true
 	}
 	if m.received.Len() < n {
 		return nil, false // wait for rest of the packet to arrive
